@@ -30,7 +30,7 @@ func init() {
 		Floor:         c05Floor,
 		MinNontrivial: 50,
 		Phases: []fw.Phase{
-			{Name: "order", N: func(t fw.Tier) int { return pick(t, 3000, 300000) }, Run: c05Order},
+			{Name: "order", N: func(t fw.Tier) int { return pick(t, 12000, 400000) }, Run: c05Order},
 		},
 		Witness: sqlWitness,
 	})
